@@ -58,11 +58,12 @@ pub struct Args<'g> {
     pub ow_64: bool,                     // (operand, id) pairs carry 64-bit literals
     last_enum: Option<(String, u32)>,
     omitted: bool,   // an optional argument was omitted: "optional ones only as a trailing run"
+    pub full: bool,  // list arguments never empty and optional arguments always present (the every-method suite)
 }
 impl<'g> Args<'g> {
     pub fn new(g: &'g Gram, seed: u64) -> Args<'g> {
         Args { g, rng: Rng::new(seed), counter: 5000, flat: vec![], rt: None, explicit_rid: None, rid_used: false,
-               ip: json!(["End"]), index: None, forced_rt: None, forced_lits: vec![], forced_words: None, forced_ids: vec![], ow_64: false, last_enum: None, omitted: false }
+               ip: json!(["End"]), index: None, forced_rt: None, forced_lits: vec![], forced_words: None, forced_ids: vec![], ow_64: false, last_enum: None, omitted: false, full: false }
     }
     pub fn reset(&mut self) {
         self.flat.clear(); self.rt = None; self.rid_used = false; self.last_enum = None; self.omitted = false;
@@ -71,7 +72,7 @@ impl<'g> Args<'g> {
     pub fn flat_w(&mut self, w: u32) { self.flat.push(json!({"w": jw(w)})); }
     pub fn flat_words(&mut self, ws: &[u32]) { for w in ws { self.flat_w(*w); } }
     pub fn word(&mut self) -> u32 { let v = if self.forced_ids.is_empty() { self.fresh() } else { self.forced_ids.remove(0) }; self.flat_w(v); v }
-    fn omit(&mut self) -> bool { if self.omitted || self.rng.chance(1, 5) { self.omitted = true; } self.omitted }
+    fn omit(&mut self) -> bool { if self.omitted || (!self.full && self.rng.chance(1, 5)) { self.omitted = true; } self.omitted }
     pub fn opt_word(&mut self) -> Option<u32> { if !self.omit() { Some(self.word()) } else { None } }
     pub fn rt(&mut self) -> u32 { let v = match self.forced_rt.take() { Some(t) => t, None => self.fresh() }; self.rt = Some(v); v }
     pub fn result_id(&mut self) -> Option<u32> { self.rid_used = true; self.explicit_rid }
@@ -93,7 +94,7 @@ impl<'g> Args<'g> {
     }
     pub fn opt_string(&mut self) -> Option<String> { if !self.omit() { Some(self.string()) } else { None } }
     /// length of a list argument: seldom empty (an empty list hides what the method does with its elements)
-    fn count(&mut self, n: usize) -> usize { if self.omitted { 0 } else if self.rng.chance(1, 8) { 0 } else { 1 + self.rng.below(n - 1) } }
+    fn count(&mut self, n: usize) -> usize { if self.omitted { 0 } else if !self.full && self.rng.chance(1, 8) { 0 } else { 1 + self.rng.below(n - 1) } }
     pub fn words(&mut self) -> Vec<u32> {
         if let Some(ws) = self.forced_words.take() { for w in &ws { self.flat_w(*w); } return ws; }
         (0..self.count(4)).map(|_| self.word()).collect()
@@ -257,6 +258,7 @@ fn suite_methods(g: &Gram, out: &mut Out, seed: u64, table: &Value) {
             continue; // structural calls are exercised by the histories
         }
         let mut s = new_session(g, out, "new", seed.wrapping_add(k as u64));
+        s.a.full = true;   // every argument present, every list non-empty: each parameter of each method is seen at least once
         let in_block = matches!(kind.as_str(), "block" | "insert_block" | "term" | "insert_term") || *name == "ext_inst";
         if in_block || (kind == "var_undef" && k % 2 == 0) || (kind == "line" && k % 2 == 0) {
             logged_call(&mut s, out, "begin_function", true);
